@@ -13,16 +13,10 @@ EDGE = 'tracklib.core.network.Edge'
 PD = 'tracklib.core.utils.priority_dict'
 
 EXPLANATION = (
-    "Static analysis of Network.addEdge / __resetFlags / run_routing_forward / shortest_distance / "
-    "all_shortest_distances / prepare and priority_dict: orientation guards evaluated on the three orientation "
-    "constants (each adjacency append unconditional for the orientations that permit it), the relaxation step "
-    "path by path (other end of the edge, improvement test against the unreached sentinel, distance and queue "
-    "key co-updated to the compared candidate), expansion order through pop_smallest over out-edges, stop test "
-    "and cut-off table write (<= cut exactly), sentinel agreement, lazy-deletion heap discipline, all-pairs "
-    "loop over every node unconditionally.  Optimality itself (the induction) is not re-proved.")
+    'Static analysis by interpretation of the source (nothing imported or executed by CPython): shortest_distance for every ordered pair, all_shortest_distances for cut-offs below / at / above the distances, prepare / prepared_shortest_distance (also prepared twice with a growing cut-off) are walked by tlint.orders on small multigraphs and compared with Floyd-Warshall on the permitted arcs; priority_dict is interpreted with its heap on every sequence of at most five assign / re-assign / pop operations over three keys against a plain dictionary.')
 ASSUMPTIONS = ["edge weights are non-negative (precondition of the property)",
                "Dijkstra mode (routing_mode != A*): the heuristic term is 0 (checked: only assigned under routing_mode == 1)"]
-TECHNIQUE = "constant-domain evaluation of guards (F4), path-wise co-update and guard dominance (F6), table/sentinel agreement (F5)"
+TECHNIQUE = "abstract interpretation of the repository's Network / Node / Edge / priority_dict classes by the checker's AST interpreter on ~190 small multigraphs (orientations, zero weights, parallel edges, isolated nodes, string ids) against Floyd-Warshall on the permitted arcs, and of the priority queue on every operation sequence up to length 5 (bounded case domains)"
 
 
 def edge_consts(ctx):
